@@ -4,3 +4,5 @@ import SPModel.Card
 import SPModel.Logic
 import SPModel.Comb
 import SPModel.Text
+import SPModel.Design
+import SPModel.Spec
